@@ -30,6 +30,8 @@ CHECKS = {
          "dst/idst as validated linear-kernel stubs (tolerance 1e-9 over |p|<=64); StepExpansion grids from an enumerated concrete family (membership uses float comparisons that are not quantified over)"),
  'C14': ("with the WHOLE random stream symbolic (every draw a fresh symbol, both runs of a pair consuming one stream), symbolic initial point and uninterpreted target, for MH, CWMH, PCN, MALA, ULA (stateful interface): sample(N);sample(M) == sample(N+M) (every split of N+M<=3/4, with/without warm-up), a run checkpointed after every step 0..N+M (get_state/set_state and the pickle file) and resumed in a freshly constructed sampler continues with exactly the same transitions and final state, recorded length, callback exactly once per state with its index, stored entries never altered, reinitialize() restores the constructed configuration; legacy MH/CWMH/pCN/MALA/ULA: length N, chain starts with x0, burn-in keeps the last N of N+Nb, callback once per transition, sample_adapt likewise",
          "N+M <= 3 (quick) / 4; uniform draws in (0,1) (u=0 is decided in C02); longer runs follow by induction on the state equality at the split (stated, not proved); NUTS/RTO/UGLA/Gibbs chains are covered by the C08/C06/C09 harnesses' own continuity obligations where present"),
+ 'C15': ("closed-form Gaussian MAP for 3x2/2x3/2x2 models with scalar / vector (symbolic) and dense (concrete) covariances in every combination: (A^T Ce^-1 A + Cx^-1)(x_MAP - x0) = A^T Ce^-1 (b - A x0) and the posterior gradient vanishes at x_MAP for ALL data, prior means and variances; direct Gaussian sampling: draws are x_MAP + L e with H L L^T = I (posterior precision H) for ALL draws; specifications the closed form cannot use are refused or still stationary; ML/MAP optimisation route: objective = - the density asked for, gradient = - its gradient, documented start point, result = the optimiser's",
+         "that SciPy's iterate is a maximiser is outside the technique (only the wiring is decided); numpy.linalg.solve/inv/cholesky on symbolic matrices are contract stubs"),
  'C16': ("CGLS/PCGLS (matrix, sparse and function operator, symbolic b, x0, shift): on every explored path the norm the stopping rule tests is the (shifted/preconditioned) normal-equation residual of the RETURNED x and norms0 that of x0, the operator forms give identical iterates, the start vector is untouched; FISTA/ISTA iterates equal the proximal-gradient map for symbolic step size and regularisation strength and an abstol exit implies ||T(y)-y|| <= abstol; LM returns (x, info) with info belonging to x (uninterpreted residual/Jacobian); SciPy wrappers hand over the given objective/gradient (negated for maximize) and return SciPy's result; ProjectNonnegative/ProjectBox/ProximalL1 satisfy the variational characterisation of the projection/prox for ALL inputs",
          "bounded path exploration (fork budget per configuration; unexplored alternatives counted in paths_cut); 1 CGLS iteration in quick, 2 in thorough (stretch); exits through maxit or normx*tol>=1 are not convergence and outside the claim"),
  'C19': ("every stored value a distinct symbol: burnthin(Nb,Nt) for ALL 0<=Nb<=Ns+1, 1<=Nt<=Ns+1 (Ns<=5/6, dims 1-3, 2-D function values, joint sets, chained calls) returns exactly columns b, b+t, ... with flags/geometry, refuses Nb>=Ns and leaves the source untouched; mean/variance/std/median/credible bounds equal the per-coordinate definitions for ALL values (lo<=median<=hi, width = hi-lo); statistics of function-value samples are those of the converted samples; arviz receives each variable's chain unpermuted",
